@@ -181,7 +181,13 @@ def approx(a, b, path, out):
       approx(x, y, path + "/" + (str(x[0]) if isinstance(x, tuple) and x and isinstance(x[0], str) else str(i)), out)
     return
   if isinstance(a, float) and isinstance(b, float):
-    if abs(a - b) > 1e-5 * max(abs(a), abs(b), 1e-3):
+    tol = 1e-5 * max(abs(a), abs(b), 1e-3)
+    if re.search(r"/(Origin|Position|Extent)/", path + "/"):
+      # computed geometry combines several written lengths (origin = 100 - extent - offset for right / bottom edges): each is written
+      # with 6 significant digits, i.e. an absolute error of up to 5e-6 x its own magnitude (a few hundred rw at most), which
+      # cancellation can make large relative to the result
+      tol += 2e-3
+    if abs(a - b) > tol:
       out.append(path + ":%r!=%r" % (a, b))
     return
   if a != b and IMSC_DEFAULT_FAMILY.get(a, a) != IMSC_DEFAULT_FAMILY.get(b, b):
